@@ -14,7 +14,7 @@ ID = "C04"
 LEVEL = "exploration"
 TECHNIQUE = "metamorphic non-interference: Hypothesis-generated partially observed screens and twins that differ only behind the mask are pushed through train -> distances -> scores -> selection (API and CLI) and compared bitwise; training-set and refusal oracles per model"
 RULE = (
-    "(single-agent viabilities of the interaction model are exactly 0 or 1 in a third of the rows) "
+    "(single-agent viabilities of the interaction model are exactly 0 or 1 in a third of the rows; in half of the library-path cases the twin comparison is repeated with 1..3 non-default constructor options of the model) "
     "partially observed arity-2 screens (6..20 rows, >=1 observed and 1..4 unobserved plates whose names sort before or after the observed ones, single-agent rows present; for the interaction model the observed part "
     "holds a single-agent row for every (sample, treatment) of the screen); twin = same screen with the masked values replaced by values from {0,1,-3.5,NaN,1e300} U floats; "
     "model in {SparseDrugCombo, SparseDrugComboInteraction}, D 1..3, burn-in 0..2, 3..5 samples, 1..2 chains, n_chunks 1..4 for distances and scores, batch of 0..2 "
@@ -101,6 +101,19 @@ def _case(draw):
         "scorer": scorer,
         "seed": draw(st.integers(0, 2**31 - 1)),
         "cli": draw(st.integers(0, 4)) == 0,
+        # non-default constructor options of the model (a second twin comparison is run with them)
+        "model_opts": draw(
+            st.one_of(
+                st.none(),
+                st.sampled_from([{"predict_interactions": True}, {"predict_interactions": True, "interaction_log_transform": False}, {"intercept": False}, {"local_shrinkage": False}] if model == "SparseDrugCombo" else [{"local_shrinkage": False}, {"mult_gamma_proc": False}]),
+                st.dictionaries(
+                    st.sampled_from(["predict_interactions", "interaction_log_transform", "fake_intercept", "individual_eff", "mult_gamma_proc", "local_shrinkage", "intercept"] if model == "SparseDrugCombo" else ["mult_gamma_proc", "local_shrinkage"]),
+                    st.booleans(),
+                    min_size=1,
+                    max_size=3,
+                ),
+            )
+        ),
     }
 
 
@@ -155,7 +168,7 @@ def _run_pipeline(case, screen, paths):
     if not case["cli"]:
         holders = []
         for chain in range(case["n_chains"]):
-            model = cls(experiment_space=ExperimentSpace.from_screen(screen), n_embedding_dimensions=case["D"])
+            model = cls(experiment_space=ExperimentSpace.from_screen(screen), n_embedding_dimensions=case["D"], **case.get("opts", {}))
             observed = screen.subset_observed()
             model.add_observations(observed)
             if chain == 0:
@@ -261,6 +274,23 @@ def check_case(case):
     for key, what in (("training", "data handed to the model"), ("n_obs", "number of training observations"), ("table", "single-effect table"), ("thetas", "posterior samples"), ("dense", "distance matrix"), ("scores", "plate scores"), ("chosen", "selected plate")):
         if key in a or key in b:
             require(_same(a.get(key), b.get(key)), "noninterference." + key, lambda: "%s differ between two screens that differ only in masked observation values (masked rows changed: %d): %r vs %r" % (what, n_diff, _short(a.get(key)), _short(b.get(key))))
+
+    # ---- the same twin comparison with non-default constructor options of the model (library path; the CLI cannot pass them)
+    if case.get("model_opts") and not case["cli"]:
+        def attempt(screen_):
+            ps = []
+            try:
+                with np.errstate(all="ignore"):
+                    return _run_pipeline(dict(case, opts=case["model_opts"], n_chains=1), screen_, ps)
+            except Exception as e:  # an option combination the model itself cannot run: only the twins' agreement matters here
+                return {"raised": type(e).__name__}
+            finally:
+                tmp.cleanup(*ps)
+
+        a2, b2 = attempt(screen_a), attempt(screen_b)
+        for key, what in (("raised", "outcome (an exception)"), ("training", "data handed to the model"), ("n_obs", "number of training observations"), ("table", "single-effect table"), ("thetas", "posterior samples"), ("dense", "distance matrix"), ("scores", "plate scores"), ("chosen", "selected plate")):
+            if key in a2 or key in b2:
+                require(_same(a2.get(key), b2.get(key)), "noninterference.with_options." + key, lambda: "with model options %r: %s differ between two screens that differ only in masked observation values: %r vs %r" % (case["model_opts"], what, _short(a2.get(key)), _short(b2.get(key))))
 
     # ---- training-set oracle (API path only: the arrays are observable there)
     cls = _model_cls(case["model"])
